@@ -19,7 +19,7 @@ def row(sid, m):
 
 
 def main():
-    for rnd, sufs in ((2, "cd"), (3, "ef")):
+    for rnd, sufs in ((2, "cd"), (3, "ef"), (4, "gh")):
         print(f"\n**Round {rnd}**\n")
         print("| id | change | needs, to manifest | caught by (quick tier, applied to /repo) | strengthening after the first evaluation |")
         print("|---|---|---|---|---|")
